@@ -27,13 +27,16 @@ def setup(rep):
     rep.bounded.append("detectors with 2 antennas and at most 3 waveforms per antenna in the table-writer harnesses")
     rep.unverified += ["pyrex.io.HDF5Writer._create_dataset", "pyrex.io.HDF5Writer._create_metadataset",
                        "pyrex.io.HDF5Writer._write_metadata", "pyrex.io.HDF5Writer.set_detector"]
+    rep.clause("read-back-of-row-blocks", "B", "the reader side of the round trip: EventIterator._load_data gives every selected event "
+               "exactly its own rows [start, start+len), also when rows of rejected adds or skipped events lie between them "
+               "(the load_data harnesses of contracts/C12.py, re-run here)")
     rep.assume("A8 h5py model: dataset = shape + attrs + cell writes; resize keeps cells; file/group are maps")
     rep.assume("A11 _create_dataset/_create_metadataset return the named node, creating it with axis-0 length 0 if absent; "
                "_write_metadata writes only the addressed rows")
 
 
 def run(tier="quick", seed=0, only=None, verbose=False):
-    rep = run_pyvc(PID, tier, seed, only, verbose, setup)
+    rep = run_pyvc(PID, tier, seed, only, verbose, setup, extra=[("contracts.C12", "load_data")])
     return rep.finish()
 
 
